@@ -53,9 +53,21 @@ def specs():
         'regex_account': hi.RegexInput('x', '^[0-9A-Za-z\\-]{1,17}$'),
         'ssn': hi.SSNInput('x'),
     }
+    other = henum.make('Other', {'Red': 'r', 'Amber': 'a', 'x': 'x'})
+    out['enum_other'] = hi.EnumInput('x', other)
+    ys = {
+        'string_y': hi.StringInput('y'), 'ssn_y': hi.SSNInput('y'), 'enum_y': hi.EnumInput('y', color),
+        'enum_empty_y': hi.EnumInput('y', color, allow_empty=True), 'enum_other_y': hi.EnumInput('y', other),
+        'regex_routing_y': hi.RegexInput('y', '^(0[1-9]|1[0-2]|2[1-9]|3[0-2])[0-9]{7}$'),
+        'regex_account_y': hi.RegexInput('y', '^[0-9A-Za-z\\-]{1,17}$'),
+    }
+    out.update(ys)
     for s in out.values():
         s.__form_init__(_F())
     return out
+
+
+MAIN_KINDS = ['string', 'bool', 'int', 'float', 'enum', 'enum_empty', 'regex_routing', 'regex_account', 'ssn']
 
 
 def expected(kind, spec, s):
@@ -214,6 +226,44 @@ def store_route(kind, spec, s, accepted_by_spec):
     return None, 'value'
 
 
+PAIRS = [('regex_account', 'regex_routing'), ('enum', 'enum_empty'), ('enum', 'enum_other'), ('string', 'ssn')]
+
+
+def pair_route(sp, ka, kb, s):
+    """two inputs of one store holding the same text, read in both orders: each read is judged against that
+    input's own validator (a store that remembers validation per text or per class is exposed)"""
+    for first, second in ((ka, kb), (kb, ka)):
+        cp = configparser.ConfigParser()
+        try:
+            cp.read_string('[t]\nx = ' + s + '\ny = ' + s + '\n')
+            raw = cp.get('t', 'x')
+        except configparser.Error:
+            return None
+        a, b = sp[first], sp[second + '_y'] if (second + '_y') in sp else sp[second]
+        st = hi.InputStore(cp, {'t.x': sp[first], 't.y': sp[second + '_y']})
+        for key, kind in (('t.x', first), ('t.y', second)):
+            spec = sp[kind] if key == 't.x' else sp[kind + '_y']
+            exp = expected(kind if kind != 'enum_other' else 'enum', spec, raw)
+            try:
+                v = st[key]
+                got = 'value'
+            except hi.InvalidInput:
+                got = 'invalid'
+            except hi.MissingInput:
+                return f'{kind} input reported missing although supplied (read order {first},{second})'
+            except Exception as e:
+                return f'{kind} input: store raised {type(e).__name__} (read order {first},{second})'
+            if exp[0] == 'invalid' and got == 'value':
+                return f'{kind} input yields {v!r} for text its validator rejects, after a {first} input with the same text was read'
+            if exp[0] == 'valid' and got == 'invalid':
+                return f'{kind} input rejects valid text after a {first} input with the same text was read'
+            if got == 'value':
+                m = check_value(kind if kind != 'enum_other' else 'enum', spec, raw, v, exp)
+                if m:
+                    return m + f' (read order {first},{second})'
+    return None
+
+
 def prompt_route(kind, spec, s, fallback):
     """the real prompt loop with scripted input(), then the solver's store-and-read"""
     script = [s, fallback]
@@ -276,7 +326,13 @@ def _work(arg):
             pre = ''.join(payload)
             strings = [pre + ''.join(t) for k in range(L - len(payload) + 1) for t in itertools.product(ALPHABET, repeat=k)]
         for s in strings:
-            for kind, spec in sp.items():
+            for ka, kb in PAIRS:
+                n += 1
+                m = pair_route(sp, ka, kb, s)
+                if m and len(errs) < 40:
+                    errs.append((ka + '+' + kb, 'pair', s, m))
+            for kind in MAIN_KINDS:
+                spec = sp[kind]
                 n += 1
                 m, ok = spec_route(kind, spec, s)
                 if m and len(errs) < 40:
@@ -415,7 +471,12 @@ def run(tier):
     # specials (serial)
     sp = specs()
     for s in SPECIALS:
-        for kind, spec in sp.items():
+        for ka, kb in PAIRS:
+            m = pair_route(sp, ka, kb, s)
+            if m:
+                run.violation(f'C11|{ka}+{kb}|pair|{_cls(m)}', dict(engine='strings', kind=ka + '+' + kb, route='pair', string=s), f'text {s!r}: {m}')
+        for kind in MAIN_KINDS:
+            spec = sp[kind]
             tot += 1
             for route, m in (('spec', spec_route(kind, spec, s)[0]), ('file', store_route(kind, spec, s, None)[0]),
                              ('prompt', prompt_route(kind, spec, s, FALLBACK[kind]))):
@@ -469,6 +530,10 @@ def replay(case):
     sp = specs()
     if case.get('engine') == 'strings':
         kind, s = case['kind'], case['string']
+        if case['route'] == 'pair':
+            ka, kb = kind.split('+')
+            m = pair_route(sp, ka, kb, s)
+            return (m is None), (m or 'passes')
         spec = sp[kind]
         m = {'spec': lambda: spec_route(kind, spec, s)[0], 'file': lambda: store_route(kind, spec, s, None)[0],
              'prompt': lambda: prompt_route(kind, spec, s, FALLBACK[kind])}[case['route']]()
